@@ -4,6 +4,7 @@ Helper lemmas for the publication server model (no property statements; those ar
 -/
 import KrillModel.Pubd.Files
 import KrillModel.Pubd.Manager
+import KrillModel.Pubd.World
 namespace KM.Pubd
 
 /-! ## object maps -/
@@ -3479,20 +3480,34 @@ theorem new_refs_present {r : Rrdp} {fs : RrdpFs} (hpre : RrdpPre r fs)
         rw [refOk_iff] at this
         exact hkeep _ _ this
 
-theorem rrdp_cut_consistent {r : Rrdp} {fs : RrdpFs} (hpre : RrdpPre r fs)
+/-- What an interrupted or complete run of `update_rrdp_files` leaves: a consistent
+notification, which is the old one or the new one, and the new one (naming the state's session
+and serial) if the run was complete. -/
+theorem rrdp_cut_facts {r : Rrdp} {fs : RrdpFs} (hpre : RrdpPre r fs)
     (hc : fs.consistent = true) {log : List Sig} {ms : List Mut} {rest : Plan}
     (hm : matchLog Mut.sig (rrdpPlan r fs) log = some (ms, rest)) :
-    (fs.applyAll ms).consistent = true := by
-  have hplan : rrdpPlan r fs = [] ∨
+    (fs.applyAll ms).consistent = true ∧
+    ((fs.applyAll ms).get? notifPath = fs.get? notifPath ∨
+      (fs.applyAll ms).get? notifPath = some (.notif (newNotification r fs.notification))) ∧
+    (planDone rest = true → ∃ n, (fs.applyAll ms).get? notifPath = some (.notif n) ∧
+      n.session = r.session ∧ n.serial = r.serial) := by
+  have hplan : (rrdpPlan r fs = [] ∧ ∃ n, fs.notification = some n ∧ n.serial = r.serial ∧
+        n.session = r.session) ∨
       rrdpPlan r fs = rrdpPlan.rrdpPlanFrom r fs fs.notification := by
     unfold rrdpPlan
-    cases fs.notification with
+    cases hn : fs.notification with
     | none => exact Or.inr rfl
-    | some n => simp only; split; exact Or.inl rfl; exact Or.inr rfl
-  rcases hplan with hp | hp
+    | some n =>
+      simp only
+      split
+      · rename_i h
+        simp only [Bool.and_eq_true, beq_iff_eq] at h
+        exact Or.inl ⟨rfl, n, rfl, h.1, h.2⟩
+      · exact Or.inr rfl
+  rcases hplan with ⟨hp, n0, hn0, hser0, hsess0⟩ | hp
   · rw [hp] at hm
     obtain ⟨rfl, _⟩ := matchLog_nil_plan Mut.sig hm
-    exact hc
+    exact ⟨hc, Or.inl rfl, fun _ => ⟨n0, notification_of_get? hn0, hsess0, hser0⟩⟩
   rw [hp, rrdpPlanFrom_eq] at hm
   simp only at hm
   -- names
@@ -3575,18 +3590,40 @@ theorem rrdp_cut_consistent {r : Rrdp} {fs : RrdpFs} (hpre : RrdpPre r fs)
       [.create newNotifPath (.notif new), .rename newNotifPath notifPath]) = fs3 := by
     rw [hwrites]
     simp only [RrdpFs.applyAll, List.foldl_cons, List.foldl_nil, hstep2, hstep3]
-  rcases matchLog_ordered Mut.sig _ _ _ _ _ hm with ⟨n, _, rfl, _⟩ | ⟨cs, log', rfl, hcs⟩
+  have hnewid : new.session = r.session ∧ new.serial = r.serial := by rw [← hnew]; exact ⟨rfl, rfl⟩
+  have hdone3 : ∃ n, fs3.get? notifPath = some (.notif n) ∧ n.session = r.session ∧
+      n.serial = r.serial := ⟨new, hnotif3, hnewid.1, hnewid.2⟩
+  rcases matchLog_ordered Mut.sig _ _ _ _ _ hm with ⟨n, _, rfl, hrest⟩ | ⟨cs, log', rfl, hcs⟩
   · -- interrupted during the writes
     rcases take_append_two (DW.map (fun e => Mut.create e.1 (.data e.2)))
         (.create newNotifPath (.notif new)) (.rename newNotifPath notifPath) n with
       ⟨k, hk⟩ | hk | hk
     · rw [hk, ← List.map_take]
-      exact (after_data_writes hpre hc (DW.take k)
-        (fun e he => hsubDW e (List.mem_of_mem_take he))).1
+      obtain ⟨h1, _, h3, _, _⟩ := after_data_writes hpre hc (DW.take k)
+        (fun e he => hsubDW e (List.mem_of_mem_take he))
+      refine ⟨h1, Or.inl h3, fun hd => ?_⟩
+      -- a complete run has performed the rename
+      exfalso
+      rw [hrest] at hd
+      simp only [planDone, List.all_cons, Bool.and_eq_true, List.isEmpty_iff] at hd
+      have h0 := congrArg List.length hd.1
+      have h1' := congrArg List.length hk
+      simp only [List.length_drop, List.length_nil, List.length_take, List.length_append,
+        List.length_map, List.length_cons] at h0 h1'
+      omega
     · rw [hk, hwrites]
       simp only [RrdpFs.applyAll, List.foldl_cons, List.foldl_nil, hstep2]
-      exact hc2
-    · rw [hk, hall]; exact hc3
+      refine ⟨hc2, Or.inl ?_, fun hd => ?_⟩
+      · rw [hget2 _ (by decide)]; exact hnp1
+      · exfalso
+        rw [hrest] at hd
+        simp only [planDone, List.all_cons, Bool.and_eq_true, List.isEmpty_iff] at hd
+        have h0 := congrArg List.length hd.1
+        have h1' := congrArg List.length hk
+        simp only [List.length_drop, List.length_nil, List.length_take, List.length_append,
+          List.length_map, List.length_cons] at h0 h1'
+        omega
+    · rw [hk, hall]; exact ⟨hc3, Or.inr hnotif3, fun _ => hdone3⟩
   · -- all writes done, some of the clean-up
     rw [applyAll_append_rrdp, hall]
     rw [hall] at hcs
@@ -3671,11 +3708,629 @@ theorem rrdp_cut_consistent {r : Rrdp} {fs : RrdpFs} (hpre : RrdpPre r fs)
             simp only [Mut.removes, List.isPrefixOf, beq_self_eq_true, Bool.true_and, Bool.and_true,
               beq_eq_false_iff_ne, ne_eq]
             exact this
+    have hnp : (fs3.applyAll cs).get? notifPath = some (.notif new) := by
+      rw [hprot _ (Or.inl rfl)]; exact hnotif3
+    refine ⟨?_, Or.inr hnp, fun _ => ⟨new, hnp, hnewid.1, hnewid.2⟩⟩
     apply hrefs3
-    · rw [hprot _ (Or.inl rfl)]; exact hnotif3
+    · exact hnp
     · rw [hprot _ (Or.inr (Or.inl rfl))]; exact hdata3 _ _ rfl hsnap1
     · intro x hx
       rw [hprot _ (Or.inr (Or.inr ⟨x, hx, rfl⟩))]
       exact hdata3 _ _ (hdlen x hx) (hdel1 x hx)
+
+theorem rrdp_cut_consistent {r : Rrdp} {fs : RrdpFs} (hpre : RrdpPre r fs)
+    (hc : fs.consistent = true) {log : List Sig} {ms : List Mut} {rest : Plan}
+    (hm : matchLog Mut.sig (rrdpPlan r fs) log = some (ms, rest)) :
+    (fs.applyAll ms).consistent = true :=
+  (rrdp_cut_facts hpre hc hm).1
+
+/-! ## retention by number: for which configurations the bound holds -/
+
+/-- While the first arm of the loop applies (fewer than `min_nr` kept, or the delta is young)
+everything is kept. -/
+theorem truncLoop_first_arm (minNr maxNr : Nat) (young old : Bool) :
+    ∀ (n keep : Nat), (young = true ∨ keep + n ≤ minNr) →
+      truncLoop minNr maxNr keep (List.replicate n (young, old)) = keep + n := by
+  intro n
+  induction n with
+  | zero => intro keep _; simp [truncLoop]
+  | succ n ih =>
+    intro keep h
+    rw [List.replicate_succ]
+    simp only [truncLoop]
+    have hc : (decide (keep < minNr) || young) = true := by
+      rcases h with h | h
+      · simp [h]
+      · have : keep < minNr := by omega
+        simp [this]
+    rw [if_pos hc, ih (keep + 1) (by rcases h with h | h; exact Or.inl h; exact Or.inr (by omega))]
+    omega
+
+theorem deleteFiles_deltas (r : Rrdp) (del : Uri) :
+    (r.deleteFiles del).deltas = r.deltas ∧ (r.deleteFiles del).serial = r.serial ∧
+    (r.deleteFiles del).session = r.session := by
+  unfold Rrdp.deleteFiles
+  have gen : ∀ (l : List Handle) (acc : Rrdp),
+      let res := l.foldl (fun acc h =>
+        let w := matchingWithdraws (r.objectsFor h) del
+        if w.isEmpty then acc else acc.stage h w) acc
+      res.deltas = acc.deltas ∧ res.serial = acc.serial ∧ res.session = acc.session := by
+    intro l
+    induction l with
+    | nil => intro acc; exact ⟨rfl, rfl, rfl⟩
+    | cons h t ih =>
+      intro acc
+      simp only [List.foldl_cons]
+      split
+      · exact ih acc
+      · exact ih _
+  exact gen r.publishers r
+
+/-- Under the guard `min_nr + 1 ≤ max_nr` and with no retained delta younger than `min_seconds`,
+an RRDP update keeps the number of deltas within `max_nr`. -/
+theorem update_deltas_le {s : Server} (c : Cfg) (hc : s.cfg = c) (hmin : c.minNr + 1 ≤ c.maxNr)
+    (hy : c.young = false) (rnd : Nat) (hb : s.rrdp.deltas.length ≤ c.maxNr) :
+    (s.update rnd).1.rrdp.deltas.length ≤ c.maxNr ∧ (s.update rnd).1.cfg = c := by
+  subst hc
+  unfold Server.update
+  split
+  · exact ⟨hb, rfl⟩
+  · split
+    · exact ⟨hb, rfl⟩
+    · refine ⟨?_, rfl⟩
+      have hle : findTruncateAge s.cfg.minNr s.cfg.maxNr s.ages ≤ s.cfg.maxNr - 1 := by
+        apply truncLoop_le _ _ hmin _ 0 (Nat.zero_le _)
+        intro j a hj _
+        unfold Server.ages at hj
+        rw [List.getElem?_map] at hj
+        cases hd : s.rrdp.deltas[j]? with
+        | none => rw [hd] at hj; cases hj
+        | some d => rw [hd] at hj; simp only [Option.map_some, Option.some.injEq] at hj; rw [← hj]; exact hy
+      show (List.take _ (_ :: s.rrdp.deltas.take _)).length ≤ s.cfg.maxNr
+      rw [List.length_take]
+      have : (s.rrdp.deltas.take (findTruncateAge s.cfg.minNr s.cfg.maxNr s.ages)).length ≤
+          findTruncateAge s.cfg.minNr s.cfg.maxNr s.ages := by
+        rw [List.length_take]; exact Nat.min_le_left _ _
+      simp only [List.length_cons]
+      omega
+
+theorem step_deltas_le {s : Server} (hmin : s.cfg.minNr + 1 ≤ s.cfg.maxNr)
+    (hy : s.cfg.young = false) (hb : s.rrdp.deltas.length ≤ s.cfg.maxNr) (op : Op) :
+    (s.step op).rrdp.deltas.length ≤ s.cfg.maxNr ∧ (s.step op).cfg = s.cfg := by
+  cases op with
+  | addpub h =>
+    simp only [Server.step, Server.addPublisher]
+    cases publisherBase s.base h with
+    | none => exact ⟨hb, rfl⟩
+    | some jail =>
+      simp only
+      split
+      · exact ⟨hb, rfl⟩
+      · refine ⟨?_, rfl⟩
+        show (s.rrdp.publisherAdded h).deltas.length ≤ _
+        unfold Rrdp.publisherAdded; split <;> exact hb
+  | rmpub h =>
+    have : (s.removePublisher h).1.rrdp = s.rrdp.removePublisher h ∧
+        (s.removePublisher h).1.cfg = s.cfg := by
+      unfold Server.removePublisher; simp only; split <;> exact ⟨rfl, rfl⟩
+    simp only [Server.step]
+    rw [this.1, this.2]
+    refine ⟨?_, rfl⟩
+    unfold Rrdp.removePublisher
+    simp only
+    split <;> exact hb
+  | publish h d =>
+    simp only [Server.step, Server.publish]
+    cases s.jail? h with
+    | none => exact ⟨hb, rfl⟩
+    | some jail =>
+      simp only
+      split
+      · exact ⟨hb, rfl⟩
+      · cases verifyDelta (s.rrdp.objectsFor h) jail d with
+        | some e => exact ⟨hb, rfl⟩
+        | none => exact ⟨hb, rfl⟩
+  | update rnd => exact update_deltas_le s.cfg rfl hmin hy rnd hb
+  | reset session rnd => exact ⟨Nat.zero_le _, rfl⟩
+  | delete del rndOf =>
+    simp only [Server.step, Server.delete]
+    have h1 := update_deltas_le s.cfg rfl hmin hy (rndOf (s.rrdp.serial + 1)) hb
+    generalize s.update (rndOf (s.rrdp.serial + 1)) = p1 at h1
+    obtain ⟨s1, r1⟩ := p1
+    simp only at h1 ⊢
+    obtain ⟨hb1, hc1⟩ := h1
+    split
+    · exact ⟨hb1, hc1⟩
+    · exact update_deltas_le (s := { s1 with rrdp := s1.rrdp.deleteFiles del }) s.cfg hc1 hmin hy _
+        (by show (s1.rrdp.deleteFiles del).deltas.length ≤ _
+            rw [(deleteFiles_deltas s1.rrdp del).1]; exact hb1)
+
+theorem run_deltas_le : ∀ (ops : List Op) (s : Server), s.cfg.minNr + 1 ≤ s.cfg.maxNr →
+    s.cfg.young = false → s.rrdp.deltas.length ≤ s.cfg.maxNr →
+    (s.run ops).rrdp.deltas.length ≤ s.cfg.maxNr := by
+  intro ops
+  induction ops with
+  | nil => intro s _ _ hb; exact hb
+  | cons op t ih =>
+    intro s hmin hy hb
+    obtain ⟨h1, h2⟩ := step_deltas_le hmin hy hb op
+    have := ih (s.step op) (by rw [h2]; exact hmin) (by rw [h2]; exact hy) (by rw [h2]; exact h1)
+    rw [h2] at this
+    simpa [Server.run] using this
+
+/-! ## histories of requests and (interrupted) writes: what the files always satisfy -/
+
+/-- No file of the current session belongs to a serial beyond the current one. -/
+def FsBound (r : Rrdp) (fs : RrdpFs) : Prop :=
+  ∀ e ∈ fs, ∀ n rest, e.1 = .sess r.session :: .num n :: rest → n ≤ r.serial
+
+/-- The part of the file invariant that every single mutation of the writer keeps. -/
+structure FsInv (r : Rrdp) (fs : RrdpFs) : Prop where
+  safe : ∀ e ∈ safeSetOf r, ∀ c, fs.get? e.1 = some c → c = .data e.2
+  flat : ∀ e ∈ fs, e.1.head? = some (.name "notification.xml") → e.1 = notifPath
+  bound : FsBound r fs
+
+/-- The mutations `update_rrdp_files` performs. -/
+def MutClass (r : Rrdp) (m : Mut) : Prop :=
+  (∃ e ∈ safeSetOf r, m = .create e.1 (.data e.2)) ∨ (∃ n, m = .create newNotifPath (.notif n)) ∨
+  m = .rename newNotifPath notifPath ∨ m.isRemoval = true
+
+theorem mem_rrdpPlan_class {r : Rrdp} {fs : RrdpFs} {ph : Bool × List Mut} (hph : ph ∈ rrdpPlan r fs)
+    {m : Mut} (hm : m ∈ ph.2) : MutClass r m := by
+  unfold rrdpPlan at hph
+  have from_ : ∀ old, ph ∈ rrdpPlan.rrdpPlanFrom r fs old → MutClass r m := by
+    intro old h
+    rw [rrdpPlanFrom_eq] at h
+    simp only [List.mem_cons, List.mem_nil_iff, or_false] at h
+    rcases h with rfl | rfl | rfl
+    · simp only [List.mem_append, List.mem_map, List.mem_cons, List.mem_nil_iff, or_false] at hm
+      rcases hm with ⟨e, he, rfl⟩ | rfl | rfl
+      · exact Or.inl ⟨e, dataWrites_sub r old e he, rfl⟩
+      · exact Or.inr (Or.inl ⟨_, rfl⟩)
+      · exact Or.inr (Or.inr (Or.inl rfl))
+    · obtain ⟨s, rfl, _⟩ := mem_cleanupSessions hm
+      exact Or.inr (Or.inr (Or.inr rfl))
+    · rcases mem_cleanupSerials hm with ⟨n, _, _, rfl | rfl⟩ | ⟨n, x, _, rfl⟩ | ⟨s, _, rfl⟩ <;>
+        exact Or.inr (Or.inr (Or.inr rfl))
+  cases hn : fs.notification with
+  | none => rw [hn] at hph; exact from_ _ hph
+  | some n =>
+    rw [hn] at hph
+    simp only at hph
+    split at hph
+    · cases hph
+    · exact from_ _ hph
+
+theorem get?_apply_removal_some {fs : RrdpFs} {m : Mut} (hr : m.isRemoval = true) {p : Path}
+    {c : FileC} (h : (fs.apply m).get? p = some c) : fs.get? p = some c := by
+  cases m with
+  | create q c' => simp [Mut.isRemoval] at hr
+  | rename a b => simp [Mut.isRemoval] at hr
+  | removeTree q =>
+    simp only [RrdpFs.apply, RrdpFs.get?_removeTree] at h
+    split at h
+    · cases h
+    · exact h
+  | removeFile q =>
+    simp only [RrdpFs.apply, RrdpFs.get?_remove] at h
+    split at h
+    · cases h
+    · exact h
+  | removeAny q =>
+    simp only [RrdpFs.apply, RrdpFs.get?_removeTree] at h
+    split at h
+    · cases h
+    · exact h
+
+theorem safeSet_shape {r : Rrdp} (hc : Contig r) {e : Path × DataFile} (he : e ∈ safeSetOf r) :
+    ∃ k rnd nm, e.1 = [.sess r.session, .num k, .rnd rnd, .name nm] ∧ k ≤ r.serial := by
+  unfold safeSetOf at he
+  rcases List.mem_cons.mp he with rfl | he
+  · exact ⟨r.serial, r.snapRnd, "snapshot.xml", rfl, Nat.le_refl _⟩
+  · obtain ⟨d, hd, rfl⟩ := List.mem_map.mp he
+    exact ⟨d.serial, d.rnd, "delta.xml", rfl, contigFrom_le hc.2 hd⟩
+
+theorem FsInv.apply {r : Rrdp} {fs : RrdpFs} (hc : Contig r) (hfunc : ∀ e ∈ safeSetOf r,
+    ∀ e' ∈ safeSetOf r, e.1 = e'.1 → e.2 = e'.2) (hi : FsInv r fs) {m : Mut} (hm : MutClass r m) :
+    FsInv r (fs.apply m) := by
+  -- paths of the new file system
+  have hpaths : ∀ e ∈ fs.apply m, (∃ e' ∈ fs, e'.1 = e.1) ∨ m.target = some e.1 :=
+    fun e he => mem_apply_path he
+  rcases hm with ⟨e0, he0, rfl⟩ | ⟨n, rfl⟩ | rfl | hrem
+  · obtain ⟨k, rnd, nm, hp0, hk⟩ := safeSet_shape hc he0
+    refine ⟨?_, ?_, ?_⟩
+    · intro e he c hg
+      rw [apply_create_data, RrdpFs.get?_set] at hg
+      by_cases hp : e.1 = e0.1
+      · simp only [hp, ↓reduceIte, Option.some.injEq] at hg
+        rw [← hg, hfunc e he e0 he0 hp]
+      · simp only [hp, ↓reduceIte] at hg
+        exact hi.safe e he c hg
+    · intro e he hh
+      rcases hpaths e he with ⟨e', he', hp⟩ | ht
+      · rw [← hp]; exact hi.flat e' he' (by rw [hp]; exact hh)
+      · simp only [Mut.target, Option.some.injEq] at ht
+        rw [← ht, hp0] at hh; simp at hh
+    · intro e he n rest hp
+      rcases hpaths e he with ⟨e', he', hp'⟩ | ht
+      · exact hi.bound e' he' n rest (hp'.trans hp)
+      · simp only [Mut.target, Option.some.injEq] at ht
+        rw [← ht, hp0] at hp
+        simp only [List.cons.injEq, Seg.num.injEq, true_and] at hp
+        rw [← hp.1]; exact hk
+  · refine ⟨?_, ?_, ?_⟩
+    · intro e he c hg
+      have hlen := safeSet_path_len he
+      simp only [RrdpFs.apply] at hg
+      rw [RrdpFs.get?_set] at hg
+      have : e.1 ≠ newNotifPath := by intro h; rw [h] at hlen; simp [newNotifPath] at hlen
+      simp only [this, ↓reduceIte] at hg
+      exact hi.safe e he c hg
+    · intro e he hh
+      rcases hpaths e he with ⟨e', he', hp⟩ | ht
+      · rw [← hp]; exact hi.flat e' he' (by rw [hp]; exact hh)
+      · simp only [Mut.target, Option.some.injEq] at ht
+        rw [← ht] at hh; simp [newNotifPath] at hh
+    · intro e he n' rest hp
+      rcases hpaths e he with ⟨e', he', hp'⟩ | ht
+      · exact hi.bound e' he' n' rest (hp'.trans hp)
+      · simp only [Mut.target, Option.some.injEq] at ht
+        rw [← ht] at hp; simp [newNotifPath] at hp
+  · refine ⟨?_, ?_, ?_⟩
+    · intro e he c hg
+      have hlen := safeSet_path_len he
+      have h1 : e.1 ≠ newNotifPath := by intro h; rw [h] at hlen; simp [newNotifPath] at hlen
+      have h2 : e.1 ≠ notifPath := by intro h; rw [h] at hlen; simp [notifPath] at hlen
+      simp only [RrdpFs.apply] at hg
+      cases hsrc : fs.get? newNotifPath with
+      | none => rw [hsrc] at hg; exact hi.safe e he c hg
+      | some c0 =>
+        rw [hsrc] at hg
+        simp only at hg
+        rw [RrdpFs.get?_set, RrdpFs.get?_remove] at hg
+        simp only [h1, h2, ↓reduceIte] at hg
+        exact hi.safe e he c hg
+    · intro e he hh
+      rcases hpaths e he with ⟨e', he', hp⟩ | ht
+      · rw [← hp]; exact hi.flat e' he' (by rw [hp]; exact hh)
+      · simp only [Mut.target, Option.some.injEq] at ht
+        exact ht.symm
+    · intro e he n' rest hp
+      rcases hpaths e he with ⟨e', he', hp'⟩ | ht
+      · exact hi.bound e' he' n' rest (hp'.trans hp)
+      · simp only [Mut.target, Option.some.injEq] at ht
+        rw [← ht] at hp; simp [notifPath] at hp
+  · have hsub : ∀ e ∈ fs.apply m, e ∈ fs := by
+      intro e he
+      rcases hpaths e he with ⟨e', _, _⟩ | ht
+      · cases m with
+        | create q c' => simp [Mut.isRemoval] at hrem
+        | rename a b => simp [Mut.isRemoval] at hrem
+        | removeTree q => exact (List.mem_filter.mp he).1
+        | removeFile q => exact (List.mem_filter.mp he).1
+        | removeAny q => exact (List.mem_filter.mp he).1
+      · cases m <;> simp [Mut.isRemoval] at hrem <;> simp [Mut.target] at ht
+    exact ⟨fun e he c hg => hi.safe e he c (get?_apply_removal_some hrem hg),
+      fun e he hh => hi.flat e (hsub e he) hh,
+      fun e he n rest hp => hi.bound e (hsub e he) n rest hp⟩
+
+theorem FsInv.applyAll {r : Rrdp} (hc : Contig r) (hfunc : ∀ e ∈ safeSetOf r,
+    ∀ e' ∈ safeSetOf r, e.1 = e'.1 → e.2 = e'.2) : ∀ (ms : List Mut) {fs : RrdpFs},
+    FsInv r fs → (∀ m ∈ ms, MutClass r m) → FsInv r (fs.applyAll ms) := by
+  intro ms
+  induction ms with
+  | nil => intro fs hi _; exact hi
+  | cons m t ih =>
+    intro fs hi hcl
+    unfold RrdpFs.applyAll
+    rw [List.foldl_cons]
+    exact ih (hi.apply hc hfunc (hcl m (by simp))) (fun x hx => hcl x (by simp [hx]))
+
+theorem RrdpFs.get?_some_mem {fs : RrdpFs} {p : Path} {c : FileC} (h : fs.get? p = some c) :
+    (p, c) ∈ fs := by
+  induction fs with
+  | nil => simp [RrdpFs.get?] at h
+  | cons a t ih =>
+    rw [RrdpFs.get?_cons] at h
+    by_cases hp : p = a.1
+    · simp only [hp, ↓reduceIte, Option.some.injEq] at h
+      subst h; subst hp; simp
+    · simp only [hp, ↓reduceIte] at h
+      exact List.mem_cons_of_mem _ (ih h)
+
+/-- A session id that no file and no notification on disk uses (session ids are random UUIDs). -/
+def SessionFresh (s : Nat) (fs : RrdpFs) : Prop :=
+  (∀ e ∈ fs, e.1.head? ≠ some (.sess s)) ∧ ∀ n, fs.notification = some n → n.session ≠ s
+
+/-- The invariant relating the state of the RRDP server and the files below `rrdp/`. -/
+structure FInv (r : Rrdp) (fs : RrdpFs) : Prop where
+  pre : RrdpPre r fs
+  cons : fs.consistent = true
+  bound : FsBound r fs
+
+theorem FInv.empty (session rnd : Nat) : FInv (Rrdp.create session rnd) [] := by
+  refine ⟨⟨?_, ?_, Contig.create session rnd, ?_, ?_⟩, rfl, ?_⟩
+  · intro n hn; simp [RrdpFs.notification, RrdpFs.get?] at hn
+  · intro n hn; simp [RrdpFs.notification, RrdpFs.get?] at hn
+  · intro e _ c hc; simp [RrdpFs.get?] at hc
+  · intro e he; cases he
+  · intro e he; cases he
+
+theorem safeSetOf_publisherAdded (r : Rrdp) (h : Handle) :
+    safeSetOf (r.publisherAdded h) = safeSetOf r := by
+  have hfl := flatten_publisherAdded r h
+  unfold Rrdp.publisherAdded at hfl ⊢
+  split
+  · rfl
+  · rename_i hn
+    simp only [hn, Bool.false_eq_true, ↓reduceIte] at hfl
+    unfold safeSetOf snapshotPath snapshotFile
+    simp only [hfl]
+
+theorem FInv.rstep {r : Rrdp} {fs : RrdpFs} (hi : FInv r fs) (rop : RrdpOp)
+    (hnr : ∀ s rnd, rop ≠ .reset s rnd) : FInv (r.step rop) fs := by
+  obtain ⟨⟨hshape, hpast, hcontig, hsafe, hflat⟩, hcons, hbound⟩ := hi
+  cases rop with
+  | added h =>
+    have hs : (r.publisherAdded h).session = r.session ∧ (r.publisherAdded h).serial = r.serial := by
+      unfold Rrdp.publisherAdded; split <;> exact ⟨rfl, rfl⟩
+    refine ⟨⟨hshape, ?_, hcontig.step (.added h), ?_, hflat⟩, hcons, ?_⟩
+    · intro n hn hsess d hd
+      show d.1 ≤ (r.publisherAdded h).serial
+      rw [hs.2]; exact hpast n hn (hsess.trans hs.1) d hd
+    · show ∀ e ∈ safeSetOf (r.publisherAdded h), _
+      rw [safeSetOf_publisherAdded]; exact hsafe
+    · intro e he n rest hp
+      show n ≤ (r.publisherAdded h).serial
+      rw [hs.2]
+      exact hbound e he n rest (by rw [hp]; show _ = Seg.sess r.session :: _; rw [← hs.1]; rfl)
+  | stage h d => exact ⟨⟨hshape, hpast, hcontig, hsafe, hflat⟩, hcons, hbound⟩
+  | update t rnd =>
+    refine ⟨⟨hshape, ?_, hcontig.step (.update t rnd), ?_, hflat⟩, hcons, ?_⟩
+    · intro n hn hsess d hd
+      exact Nat.le_succ_of_le (hpast n hn hsess d hd)
+    · intro e he c hg
+      -- a file at a path of the new serial does not exist
+      have hnew : ∀ (rest : List Seg), e.1 = .sess r.session :: .num (r.serial + 1) :: rest → False := by
+        intro rest hp
+        have hmem := RrdpFs.get?_some_mem hg
+        have := hbound (e.1, c) hmem (r.serial + 1) rest hp
+        omega
+      unfold safeSetOf at he
+      rcases List.mem_cons.mp he with rfl | he
+      · exact (hnew _ rfl).elim
+      · obtain ⟨d, hd, rfl⟩ := List.mem_map.mp he
+        have hd' : d ∈ (⟨r.serial + 1, rnd, stagedElems r.staged⟩ : DeltaRec) :: r.deltas.take t :=
+          List.mem_of_mem_take hd
+        rcases List.mem_cons.mp hd' with rfl | hd'
+        · exact (hnew _ rfl).elim
+        · apply hsafe (deltaPath r.session d, deltaFile r.session d) _ c hg
+          unfold safeSetOf
+          exact List.mem_cons_of_mem _ (List.mem_map.mpr ⟨d, List.mem_of_mem_take hd', rfl⟩)
+    · intro e he n rest hp
+      exact Nat.le_succ_of_le (hbound e he n rest hp)
+  | reset s rnd => exact absurd rfl (hnr s rnd)
+
+theorem FInv.reset {r : Rrdp} {fs : RrdpFs} (hi : FInv r fs) (s rnd : Nat) (hf : SessionFresh s fs) :
+    FInv (r.sessionReset s rnd) fs := by
+  obtain ⟨⟨hshape, _, _, _, hflat⟩, hcons, _⟩ := hi
+  refine ⟨⟨hshape, ?_, ⟨Nat.one_pos, trivial⟩, ?_, hflat⟩, hcons, ?_⟩
+  · intro n hn hsess; exact absurd hsess (hf.2 n hn)
+  · intro e he c hg
+    exfalso
+    have hmem := RrdpFs.get?_some_mem hg
+    have : e.1.head? = some (.sess s) := by
+      unfold safeSetOf at he
+      rcases List.mem_cons.mp he with rfl | he
+      · rfl
+      · obtain ⟨d, hd, _⟩ := List.mem_map.mp he
+        cases hd
+    exact hf.1 (e.1, c) hmem this
+  · intro e he n rest hp
+    exfalso
+    exact hf.1 e he (by rw [hp]; rfl)
+
+theorem notification_congr {fs fs' : RrdpFs} (h : fs'.get? notifPath = fs.get? notifPath) :
+    fs'.notification = fs.notification := by
+  unfold RrdpFs.notification; rw [h]
+
+/-- An interrupted or complete run of `update_rrdp_files` keeps the invariant. -/
+theorem FInv.write {r : Rrdp} {fs : RrdpFs} (hi : FInv r fs) {log : List Sig} {ms : List Mut}
+    {rest : Plan} (hm : matchLog Mut.sig (rrdpPlan r fs) log = some (ms, rest)) :
+    FInv r (fs.applyAll ms) := by
+  obtain ⟨hcons', hnotif, _⟩ := rrdp_cut_facts hi.pre hi.cons hm
+  have hfi : FInv.pre hi = hi.pre := rfl
+  have hclass : ∀ m ∈ ms, MutClass r m := by
+    intro m hmm
+    obtain ⟨ph, hph, hmem⟩ := matchLog_mem Mut.sig hm m hmm
+    exact mem_rrdpPlan_class hph hmem
+  have hfs := FsInv.applyAll hi.pre.contig (safeSet_of_pre hi.pre).func ms
+    ⟨hi.pre.safe, hi.pre.flat, hi.bound⟩ hclass
+  refine ⟨⟨?_, ?_, hi.pre.contig, hfs.safe, hfs.flat⟩, hcons', hfs.bound⟩
+  · intro n hn
+    rcases hnotif with h | h
+    · exact hi.pre.shape n (by rw [← notification_congr h]; exact hn)
+    · have : n = newNotification r fs.notification := by
+        unfold RrdpFs.notification at hn; rw [h] at hn; exact (Option.some.inj hn).symm
+      subst this
+      refine ⟨⟨r.snapRnd, rfl⟩, fun d hd => ?_⟩
+      obtain ⟨⟨rnd, hp⟩, _, _⟩ := newNotification_delta_shape hi.pre hd
+      exact ⟨rnd, hp⟩
+  · intro n hn hsess d hd
+    rcases hnotif with h | h
+    · exact hi.pre.past n (by rw [← notification_congr h]; exact hn) hsess d hd
+    · have : n = newNotification r fs.notification := by
+        unfold RrdpFs.notification at hn; rw [h] at hn; exact (Option.some.inj hn).symm
+      subst this
+      rcases mem_newNotification_deltas hd with ⟨x, hx, rfl⟩ | hre
+      · exact contigFrom_le hi.pre.contig.2 (mem_deltasToWrite hx)
+      · obtain ⟨n0, hn0, hs0, hmem, _, _⟩ := mem_reusable hre
+        exact hi.pre.past n0 hn0 hs0 d hmem
+
+theorem deleteFiles_fields (r : Rrdp) (del : Uri) :
+    (r.deleteFiles del).deltas = r.deltas ∧ (r.deleteFiles del).serial = r.serial ∧
+    (r.deleteFiles del).session = r.session ∧ (r.deleteFiles del).snapRnd = r.snapRnd ∧
+    (r.deleteFiles del).snapshot = r.snapshot := by
+  unfold Rrdp.deleteFiles
+  have gen : ∀ (l : List Handle) (acc : Rrdp),
+      let res := l.foldl (fun acc h =>
+        let w := matchingWithdraws (r.objectsFor h) del
+        if w.isEmpty then acc else acc.stage h w) acc
+      res.deltas = acc.deltas ∧ res.serial = acc.serial ∧ res.session = acc.session ∧
+        res.snapRnd = acc.snapRnd ∧ res.snapshot = acc.snapshot := by
+    intro l
+    induction l with
+    | nil => intro acc; exact ⟨rfl, rfl, rfl, rfl, rfl⟩
+    | cons h t ih =>
+      intro acc
+      simp only [List.foldl_cons]
+      split
+      · exact ih acc
+      · exact ih _
+  exact gen r.publishers r
+
+theorem FInv.congr {r r' : Rrdp} {fs : RrdpFs} (h1 : r'.session = r.session)
+    (h2 : r'.serial = r.serial) (h3 : r'.deltas = r.deltas) (h4 : r'.snapRnd = r.snapRnd)
+    (h5 : r'.snapshot = r.snapshot) (hi : FInv r fs) : FInv r' fs := by
+  have hsafe : safeSetOf r' = safeSetOf r := by
+    unfold safeSetOf snapshotPath snapshotFile
+    rw [h1, h2, h3, h4, h5]
+  obtain ⟨⟨hshape, hpast, hcontig, hsafe', hflat⟩, hcons, hbound⟩ := hi
+  refine ⟨⟨hshape, ?_, ?_, ?_, hflat⟩, hcons, ?_⟩
+  · intro n hn hs d hd; rw [h2]; exact hpast n hn (hs.trans h1) d hd
+  · unfold Contig; rw [h2, h3]; exact hcontig
+  · rw [hsafe]; exact hsafe'
+  · intro e he n rest hp; rw [h2]; exact hbound e he n rest (by rw [hp, h1])
+
+theorem FInv.update {s : Server} {fs : RrdpFs} (hi : FInv s.rrdp fs) (rnd : Nat) :
+    FInv (s.update rnd).1.rrdp fs := by
+  unfold Server.update
+  split
+  · exact hi
+  · split
+    · exact hi
+    · exact hi.rstep (.update _ rnd) (fun _ _ h => nomatch h)
+
+/-- Requests keep the file invariant (a session reset must choose a fresh session id). -/
+theorem FInv.server_step {s : Server} {fs : RrdpFs} (hi : FInv s.rrdp fs) (op : Op)
+    (hfresh : ∀ sess rnd, op = .reset sess rnd → SessionFresh sess fs) :
+    FInv (s.step op).rrdp fs := by
+  cases op with
+  | addpub h =>
+    simp only [Server.step, Server.addPublisher]
+    cases publisherBase s.base h with
+    | none => exact hi
+    | some jail =>
+      simp only
+      split
+      · exact hi
+      · exact hi.rstep (.added h) (fun _ _ hh => nomatch hh)
+  | rmpub h =>
+    have : (s.removePublisher h).1.rrdp = s.rrdp.removePublisher h := by
+      unfold Server.removePublisher; simp only; split <;> rfl
+    simp only [Server.step, this, Rrdp.removePublisher]
+    split
+    · exact hi
+    · exact hi.rstep (.stage h _) (fun _ _ hh => nomatch hh)
+  | publish h d =>
+    simp only [Server.step, Server.publish]
+    cases s.jail? h with
+    | none => exact hi
+    | some jail =>
+      simp only
+      split
+      · exact hi
+      · cases verifyDelta (s.rrdp.objectsFor h) jail d with
+        | some e => exact hi
+        | none => exact hi.rstep (.stage h d) (fun _ _ hh => nomatch hh)
+  | update rnd => exact hi.update rnd
+  | reset sess rnd => exact hi.reset sess rnd (hfresh sess rnd rfl)
+  | delete del rndOf =>
+    simp only [Server.step, Server.delete]
+    have h1 := hi.update (rndOf (s.rrdp.serial + 1))
+    generalize s.update (rndOf (s.rrdp.serial + 1)) = p1 at h1
+    obtain ⟨s1, r1⟩ := p1
+    simp only at h1 ⊢
+    split
+    · exact h1
+    · obtain ⟨q3, q2, q1, q4, q5⟩ := deleteFiles_fields s1.rrdp del
+      exact FInv.update (s := { s1 with rrdp := s1.rrdp.deleteFiles del })
+        (FInv.congr q1 q2 q3 q4 q5 h1) _
+
+/-! ### the world: requests and interrupted writes -/
+
+def EventOk (w : World) : Event → Prop
+  | .req op => OpOk op ∧ ∀ sess rnd, op = .reset sess rnd → SessionFresh sess w.rfs
+  | .write _ _ => True
+
+/-- Every event of the history is admissible in the world it meets. -/
+def World.Valid : World → List Event → Prop
+  | _, [] => True
+  | w, e :: es => EventOk w e ∧ World.Valid (w.step e) es
+
+/-- The invariant of the world: the manager's invariant and the file invariant.  Nothing is
+asked of the rsync directory. -/
+structure WInv (w : World) : Prop where
+  srv : SInv w.srv
+  files : FInv w.srv.rrdp w.rfs
+
+theorem WInv.init (base : Uri) (cfg : Cfg) (session rnd : Nat) :
+    WInv (World.init base cfg session rnd) :=
+  ⟨SInv.init base cfg session rnd, FInv.empty session rnd⟩
+
+theorem World.write_srv (w : World) (rlog slog : List Sig) : (w.write rlog slog).srv = w.srv := by
+  unfold World.write
+  cases matchLog Mut.sig (rrdpPlan w.srv.rrdp w.rfs) rlog with
+  | none => rfl
+  | some p =>
+    obtain ⟨ms, rest⟩ := p
+    simp only
+    split
+    · cases matchLog RMut.sig (rsyncPlan w.sfs w.srv.base w.srv.rrdp.serial
+        (flatten w.srv.rrdp.snapshot)) slog with
+      | none => rfl
+      | some q => rfl
+    · rfl
+
+/-- What a write event does to the RRDP files: nothing, or the mutations of a run of a prefix of
+the plan. -/
+theorem World.write_rfs (w : World) (rlog slog : List Sig) :
+    (w.write rlog slog).rfs = w.rfs ∨
+    ∃ ms rest, matchLog Mut.sig (rrdpPlan w.srv.rrdp w.rfs) rlog = some (ms, rest) ∧
+      (w.write rlog slog).rfs = w.rfs.applyAll ms := by
+  unfold World.write
+  cases hm : matchLog Mut.sig (rrdpPlan w.srv.rrdp w.rfs) rlog with
+  | none => exact Or.inl rfl
+  | some p =>
+    obtain ⟨ms, rest⟩ := p
+    refine Or.inr ⟨ms, rest, rfl, ?_⟩
+    simp only
+    split
+    · cases matchLog RMut.sig (rsyncPlan w.sfs w.srv.base w.srv.rrdp.serial
+        (flatten w.srv.rrdp.snapshot)) slog with
+      | none => rfl
+      | some q => rfl
+    · rfl
+
+theorem WInv.step {w : World} (hi : WInv w) {e : Event} (hok : EventOk w e) : WInv (w.step e) := by
+  cases e with
+  | req op => exact ⟨hi.srv.step hok.1, hi.files.server_step op hok.2⟩
+  | write rlog slog =>
+    refine ⟨by show SInv (w.write rlog slog).srv; rw [World.write_srv]; exact hi.srv, ?_⟩
+    show FInv (w.write rlog slog).srv.rrdp (w.write rlog slog).rfs
+    rw [World.write_srv]
+    rcases World.write_rfs w rlog slog with h | ⟨ms, rest, hm, h⟩
+    · rw [h]; exact hi.files
+    · rw [h]; exact hi.files.write hm
+
+theorem WInv.run : ∀ (es : List Event) {w : World}, WInv w → World.Valid w es → WInv (w.run es) := by
+  intro es
+  induction es with
+  | nil => intro w hi _; exact hi
+  | cons e t ih =>
+    intro w hi hv
+    unfold World.run
+    rw [List.foldl_cons]
+    exact ih (hi.step hv.1) hv.2
 
 end KM.Pubd
